@@ -55,4 +55,16 @@ structure Problem.Sol (P : Problem Var Val) (a : Var → Val) : Prop where
 /-- the yielded dict `s` is the total assignment `a` on the variables of the problem -/
 def Problem.Is (P : Problem Var Val) (s : Asg Var Val) (a : Var → Val) : Prop := ∀ x ∈ P.keys, s.lookup x = some (a x)
 
+/-- a worked problem: x₀, x₁, x₂ ∈ [0, 1, 2] (in that order); x₀ ≠ x₁; x₁ < x₂; x₂ ≠ 0 (a one-variable constraint) -/
+def exampleProblem : Problem Nat Nat :=
+  { vars := [(0, [0, 1, 2]), (1, [0, 1, 2]), (2, [0, 1, 2])],
+    cons := [⟨[0, 1], fun kw => kw 0 != kw 1⟩,
+             ⟨[1, 2], fun kw => match kw 1, kw 2 with | some a, some b => decide (a < b) | _, _ => false⟩,
+             ⟨[2], fun kw => kw 2 != some 0⟩],
+    lt := fun a b => decide (a < b) }
+
+/-- a second one where the all-last-values assignment is a solution: x₀ ∈ [0, 1], x₁ ∈ [1, 0], x₀ ≠ x₁ -/
+def exampleProblem2 : Problem Nat Nat :=
+  { vars := [(0, [0, 1]), (1, [1, 0])], cons := [⟨[0, 1], fun kw => kw 0 != kw 1⟩], lt := fun a b => decide (a < b) }
+
 end Pkgcore.C10.Solver
